@@ -12,6 +12,14 @@ type S3 struct{ ID int }
 type N1 int
 type N2 string
 
+// Values of these three cannot be compared with ==.
+type L1 []int
+type M1 map[string]int
+type Fn func() int
+
+// I0 is the empty interface: every registered type implements it.
+type I0 = interface{}
+
 type I1 interface{ M1() int }
 type I2 interface {
 	M1() int
@@ -49,18 +57,23 @@ var (
 	tI2   = reflect.TypeOf((*I2)(nil)).Elem()
 	tI3   = reflect.TypeOf((*I3)(nil)).Elem()
 	tI4   = reflect.TypeOf((*I4)(nil)).Elem()
+	tI0   = reflect.TypeOf((*I0)(nil)).Elem()
+	tL1   = reflect.TypeOf(L1(nil))
+	tM1   = reflect.TypeOf(M1(nil))
+	tFn   = reflect.TypeOf(Fn(nil))
 )
 
 // universe lists the types by the short names used in cases.
 var universe = map[string]reflect.Type{
 	"S1": tS1, "S2": tS2, "S3": tS3, "*S1": tPS1, "*S2": tPS2, "*S3": tPS3,
 	"N1": tN1, "N2": tN2, "chan": tChan, "<-chan": tRecv, "I1": tI1, "I2": tI2, "I3": tI3, "I4": tI4,
+	"I0": tI0, "L1": tL1, "M1": tM1, "Fn": tFn,
 }
 
-var typeNames = []string{"S1", "S2", "S3", "*S1", "*S2", "*S3", "N1", "N2", "chan", "<-chan", "I1", "I2", "I3", "I4"}
+var typeNames = []string{"S1", "S2", "S3", "*S1", "*S2", "*S3", "N1", "N2", "chan", "<-chan", "I1", "I2", "I3", "I4", "I0", "L1", "M1", "Fn"}
 
 // concrete lists the types a value can be made of.
-var concreteNames = []string{"S1", "S2", "S3", "*S1", "*S2", "*S3", "N1", "N2", "chan"}
+var concreteNames = []string{"S1", "S2", "S3", "*S1", "*S2", "*S3", "N1", "N2", "chan", "L1", "M1", "Fn"}
 
 // mkValue makes a fresh value of a concrete type carrying the identity id.
 func mkValue(name string, id int) reflect.Value {
@@ -83,6 +96,12 @@ func mkValue(name string, id int) reflect.Value {
 		return reflect.ValueOf(N2("n2-" + itoa(id)))
 	case "chan":
 		return reflect.ValueOf(make(chan int, id%3+1))
+	case "L1":
+		return reflect.ValueOf(L1{id})
+	case "M1":
+		return reflect.ValueOf(M1{"id": id})
+	case "Fn":
+		return reflect.ValueOf(Fn(func() int { return id }))
 	}
 	panic("harness: mkValue " + name)
 }
@@ -106,8 +125,8 @@ func itoa(i int) string {
 	return string(b)
 }
 
-// same reports whether two values are the same injected value: pointer and
-// channel identity, == for the rest.
+// same reports whether two values are the same injected value: pointer,
+// channel, map and slice identity, the carried id for functions, == for the rest.
 func same(a, b reflect.Value) bool {
 	if !a.IsValid() || !b.IsValid() {
 		return a.IsValid() == b.IsValid()
@@ -126,8 +145,13 @@ func same(a, b reflect.Value) bool {
 		return false
 	}
 	switch a.Kind() {
-	case reflect.Ptr, reflect.Chan:
+	case reflect.Ptr, reflect.Chan, reflect.Map:
 		return a.Pointer() == b.Pointer()
+	case reflect.Slice:
+		return a.Pointer() == b.Pointer() && a.Len() == b.Len()
+	case reflect.Func:
+		// every Fn value is its own closure carrying its id
+		return a.Interface().(Fn)() == b.Interface().(Fn)()
 	}
 	return a.Interface() == b.Interface()
 }
